@@ -177,6 +177,8 @@ class LoopMixin:
             f = f.parent
         for f in reversed(fs):
             env.update(f.vars)
+        for pn, pv in getattr(self, "entry_params", {}).items():
+            env["entry_" + pn] = pv
         if extra:
             env.update(extra)
         return env
@@ -394,12 +396,21 @@ class LoopMixin:
         keys = list(unit.raises.keys())
         d = self.choose(1 + len(keys), [None] * (1 + len(keys)), f"call:{unit.name}@{line}") if keys else 0
         if d == 0:
-            r = fresh("r_" + unit.name.replace(".", "_"), Val)
             rt = unit.returns
-            tv = TV("val", r, rt if rt and "|" not in rt and rt != "any" else None)
-            self.closed(r)
-            if rt and rt != "any":
-                self.assume(self.type_fact(r, rt))
+            if unit.returns_keys:
+                pairs = [(const_tv(k), TV("val", fresh("rk_" + k, Val))) for k in unit.returns_keys]
+                for _, pv in pairs:
+                    self.closed(pv.r)
+                tv = self.new_dict(pairs)
+                _a = self.as_addr(tv)
+                self.shape[str(z3.simplify(_a))] = ("dict", pairs, _a)
+                r = tv.r
+            else:
+                r = fresh("r_" + unit.name.replace(".", "_"), Val)
+                tv = TV("val", r, rt if rt and "|" not in rt and rt != "any" else None)
+                self.closed(r)
+                if rt and rt != "any":
+                    self.assume(self.type_fact(r, rt))
             env2 = dict(env)
             env2["result"] = tv
             self.assume_clauses(unit.ensures, env2, old_heap=old)
